@@ -226,6 +226,13 @@ def run(ctx):
                 ('data variables dropped', lambda x: x.drop_vars([v for v in x.data_vars if str(v).startswith('h_')])),
                 ('more time steps', lambda x: x.assign(series=(('many_times',), numpy.arange(7.0)))),
                 ('fortran memory layout', lambda x: fortran_layout(x, names)),
+                # a CF grid mapping (projection) variable and a data variable pointing at it: neither is a geometry variable
+                ('grid mapping variable and link added', lambda x: x.assign(
+                    crs=xarray.DataArray(numpy.int32(0), attrs={'grid_mapping_name': 'latitude_longitude', 'semi_major_axis': 6378137.0}),
+                    linked=(list(x[list(x.data_vars)[-1]].dims), numpy.ones(x[list(x.data_vars)[-1]].shape), {'grid_mapping': 'crs'}))),
+                ('grid mapping with another ellipsoid', lambda x: x.assign(
+                    crs=xarray.DataArray(numpy.int32(0), attrs={'grid_mapping_name': 'latitude_longitude', 'semi_major_axis': 6371000.0}),
+                    linked=(list(x[list(x.data_vars)[-1]].dims), numpy.ones(x[list(x.data_vars)[-1]].shape), {'grid_mapping': 'crs'}))),
             ]:
                 with warnings.catch_warnings():
                     warnings.simplefilter('ignore')
